@@ -90,14 +90,26 @@ def rand_tree(rng, depth, big=False):
 ARITY_EDGES = [1023, 1024, 1025, 1030, 1500, 2048, 2049, 4096]          # around proto.maxArrayPrealloc and its doublings
 BULK_EDGES = [4095, 4096, 4097, 16382, 16383, 16384, 16385, 32768, 65535, 65536, 65537, 100000]   # buffer-size edges (bufio 4096, 16 KiB, 64 KiB)
 
-def boundary_trees(rng, arities=ARITY_EDGES, bulks=BULK_EDGES):
+# the smallest values of each kind: an array of n of them is a value with n empty arrays, n null bulks, ...
+TINY_KINDS = [('a', []), ('na',), ('b', None), ('b', b""), ('s', b""), ('a', [('a', [])])]
+
+def boundary_trees(rng, arities=ARITY_EDGES, bulks=BULK_EDGES, null_arrays=False):
     """values sitting on implementation thresholds: element counts around the array pre-allocation cap, bulk lengths around
-    common buffer sizes; elements are short so the streams stay small"""
+    common buffer sizes; elements are short so the streams stay small.  Thresholds mined from the source of the tree under
+    test (thresholds.py) are added to both lists."""
+    import thresholds as T
+    arities = T.extend(arities, 3, 70000, limit=6)
+    bulks = T.extend(bulks, 32, 1 << 21, limit=6)
     out = []
     for n in arities:
         out.append(('a', [('b', b"v%d" % i) for i in range(n)]))
         out.append(('a', [('i', b"%d" % (i % 10)) for i in range(n)]))
         out.append(('a', [('b', b"x"), ('a', [('b', b"e%d" % (i % 7)) for i in range(n)]), ('b', b"y")]))
+        # n elements that are themselves empty / null / nested-empty: whatever a parser keeps per array (depth, counters) adds up
+        # (a null array cannot be built with the constructors, only parsed: it is used where the bytes come from this encoder)
+        tiny = TINY_KINDS if null_arrays else [k for k in TINY_KINDS if k != ('na',)]
+        out.append(('a', [tiny[(i + n) % len(tiny)] for i in range(n)]))
+        out.append(('a', [tiny[n % 2] for i in range(n)]))
     for n in bulks:
         out.append(('b', bytes((i * 7 + 3) % 251 for i in range(n))))
         out.append(('a', [('b', b"SET"), ('b', b"k"), ('b', bytes(rng.randrange(256) for _ in range(n)))]))
